@@ -525,6 +525,18 @@ func c12Run(r *mon.Run) {
 			big("[" + strings.Repeat(" ", n) + "]")
 		}
 	}
+	// (3b) byte order marks and other multi-byte prefixes in front of valid documents
+	if r.Shard == 1 {
+		for _, pre := range []string{"\xef\xbb\xbf", "\xef\xbb", "\xfe\xff", "\xff\xfe", "\xef\xbb\xbf\xef\xbb\xbf", "\xc2\xa0", "\xe2\x80\xa8", "\xe3\x80\x80"} {
+			for _, base := range []string{`{}`, `[1]`, `12`, `"a"`, `null`, ``, ` `, "\n{}"} {
+				for _, doc := range []string{pre + base, base + pre, pre + base + pre, " " + pre + base} {
+					c12Doc(r, []byte(doc), false)
+					c12Doc(r, []byte(doc), true)
+					r.Nontrivial("bom", doc)
+				}
+			}
+		}
+	}
 	// (4) every byte 0x00-0xFF inserted at every position of small valid documents (blank-like bytes that are not
 	// JSON white space - VT, FF, NEL, NBSP, NUL, DEL - must be refused wherever they stand outside a string)
 	{
